@@ -13,7 +13,7 @@ from common import ToolError, log  # noqa: E402
 
 MODULES = {
     "C01": "isa", "C04": "isa", "C13": "isa",
-    "C05": "exprs", "C11": "files", "C07": "hexfiles",
+    "C05": "exprs", "C11": "files", "C07": "hexfiles", "C18": "cli", "C16": "hostile", "C17": "sessions",
     "C02": "asm", "C03": "asm", "C06": "asm", "C08": "asm", "C09": "asm", "C10": "asm", "C12": "asm", "C14": "asm", "C15": "asm",
 }
 
